@@ -102,6 +102,74 @@ def capture_language(language, filename: str, text: str):
     return out
 
 
+def capture_header_pairs(language, filename: str, text: str):
+    """[(expression, followed_by or None)] handed to scope_utils.get_headers by language.extract_headers."""
+    import codelimit.common.scope.scope_utils as SU
+    from codelimit.common.lexer_utils import lex
+    from codelimit.common.source_utils import filter_tokens
+
+    captured = []
+    orig = SU.get_headers
+
+    def gh(tokens, expression, followed_by=None):
+        captured.append((expression, followed_by))
+        return orig(tokens, expression, followed_by)
+
+    hits = _patch_all(orig, gh)
+    try:
+        tokens = filter_tokens(lex(get_lexer_for_filename(filename), text, False))
+        try:
+            language.extract_headers(tokens)
+        except Exception:  # noqa: BLE001
+            pass
+    finally:
+        for d, k in hits:
+            d[k] = orig
+    return captured
+
+
+def normalise_expr(e):
+    return e if isinstance(e, list) else [e]
+
+
+def extract_pairs():
+    """[(header Automaton, follow-up Automaton or None)] over a JOINT class alphabet per pair, all languages;
+    identical pairs of different languages are kept once."""
+    from codelimit.languages import Languages
+
+    by_ext = {"C": "f.c", "C++": "f.cpp", "C#": "f.cs", "Java": "f.java", "JavaScript": "f.js", "TypeScript": "f.ts", "Python": "f.py"}
+    pairs, index = [], {}
+    for lname in sorted(Languages.by_name):
+        fn = by_ext.get(lname)
+        texts = [(fn, SEEDS[fn])] if fn else list(SEEDS.items())
+        for f, t in texts:
+            for expr, fb in capture_header_pairs(Languages.by_name[lname], f, t):
+                key = (describe(expr), describe(fb) if fb is not None else "")
+                if key in index:
+                    a = pairs[index[key]][0]
+                    if lname not in a.language.split(","):
+                        a.language += "," + lname
+                    continue
+                vals = set()
+                for p in normalise_expr(expr) + (normalise_expr(fb) if fb is not None else []):
+                    values_in(p, vals)
+                # every predicate object reachable from the expressions contributes its distinguished values
+                ha = Automaton(lname, "find_all", expr, extra_values=vals)
+                fa = Automaton(lname, "starts_with", fb, extra_values=ha.values) if fb is not None else None
+                if fa is not None:
+                    if fa.values != ha.values:
+                        ha = Automaton(lname, "find_all", expr, extra_values=fa.values)
+                    sigs = {}
+                    for ci in range(len(ha.full_classes)):
+                        sigs.setdefault((ha.signature(ci), fa.signature(ci)), []).append(ci)
+                    members = sorted(sigs.values())
+                    ha.requotient(members)
+                    fa.requotient(members)
+                index[key] = len(pairs)
+                pairs.append((ha, fa))
+    return pairs
+
+
 def stateful_part(pred):
     """The (single) nested object carrying a nesting counter, or None."""
     found = []
@@ -151,7 +219,7 @@ def walk(dfa):
 class Automaton:
     """One extracted automaton with its probed acceptance table."""
 
-    def __init__(self, language: str, kind: str, expr):
+    def __init__(self, language: str, kind: str, expr, extra_values=()):
         from codelimit.common.gsm.Expression import expression_to_nfa, nfa_to_dfa
 
         self.language, self.kind, self.expr = language, kind, expr
@@ -168,7 +236,7 @@ class Automaton:
         vals = set()
         for p in self.preds:
             values_in(p, vals)
-        self.values = sorted(vals)
+        self.values = sorted(vals | set(extra_values))
         self.full_classes = [(k, v) for k in KINDS for v in self.values + ["OTHER"]]
         self._probe()
 
@@ -220,12 +288,22 @@ class Automaton:
                         if sp is not None and {a: b for a, b in vars(sp).items() if a not in ("depth", "satisfied")} != before:
                             raise MachineryError(f"predicate {describe(p)} carries state other than a nesting counter and a satisfied flag")
                         full[(pi, d, sat, ci)] = (acc, nd, ns)
-        # quotient alphabet: classes that no predicate at no depth distinguishes are merged
-        sigs = {}
-        for ci in range(len(self.full_classes)):
-            sig = tuple(full[(pi, d, sat, ci)] for pi in range(len(self.preds)) for d in range(-1, MAXD + 1) for sat in (False, True))
-            sigs.setdefault(sig, []).append(ci)
-        self.class_members = sorted(sigs.values())
+        self._full = full
+        self.requotient(None)
+
+    def signature(self, ci):
+        return tuple(self._full[(pi, d, sat, ci)] for pi in range(len(self.preds)) for d in range(-1, MAXD + 1) for sat in (False, True))
+
+    def requotient(self, class_members):
+        """Quotient alphabet: classes that no predicate at no depth distinguishes are merged. A partition may be
+        imposed from outside (the common refinement for a pair of automata reading the same token stream)."""
+        full = self._full
+        if class_members is None:
+            sigs = {}
+            for ci in range(len(self.full_classes)):
+                sigs.setdefault(self.signature(ci), []).append(ci)
+            class_members = sorted(sigs.values())
+        self.class_members = class_members
         # prefer a realistic representative (kind matching the usual kind of the value)
         self.classes = [self.full_classes[self._pick(m)] for m in self.class_members]
         self.acc = {}
@@ -317,7 +395,18 @@ def extract_all():
     return autos
 
 
-def tla_module(autos, name="AutomatonData") -> str:
+def shape_classes(a):
+    """1-based joint class indices of the structural tokens of a header shape: a name, ( ) the body opener, other."""
+    def cls(kind, value):
+        ci = a.full_classes.index((kind, value)) if (kind, value) in a.full_classes else None
+        if ci is None:
+            return 0
+        return next(i + 1 for i, m in enumerate(a.class_members) if ci in m)
+
+    return {"n": cls("Name", "OTHER"), "o": cls("Punct", "("), "c": cls("Punct", ")"), "b": cls("Punct", "{"), "x": cls("Other", "OTHER")}
+
+
+def tla_module(autos, name="AutomatonData", pairs=None, shapes=None) -> str:
     def tup(xs):
         return "<<" + ", ".join(xs) + ">>"
 
@@ -325,6 +414,8 @@ def tla_module(autos, name="AutomatonData") -> str:
         return "TRUE" if x else "FALSE"
 
     out = [f"---- MODULE {name} ----", "\\* GENERATED by vf/extract.py from the running code - do not edit", "EXTENDS Integers", f"NAuto == {len(autos)}", f"MaxD == {MAXD}"]
+    out.append("APairs == " + tup("<<%d, %d>>" % p for p in (pairs or [])))  # <<header automaton, follow-up automaton or 0>>
+    out.append("AShape == " + tup("[n |-> %d, o |-> %d, c |-> %d, b |-> %d, x |-> %d]" % (sh["n"], sh["o"], sh["c"], sh["b"], sh["x"]) for sh in (shapes or [])))
     out.append("AKind == " + tup('"%s"' % a.kind for a in autos))
     out.append("ANStates == " + tup(str(len(a.states)) for a in autos))
     out.append("AStart == " + tup(str(a.sidx(a.dfa.start)) for a in autos))
